@@ -78,6 +78,7 @@ SPELLINGS = {
     "powPaths": [["announce", "pow_difficulty"], ["node", "announce_pow_difficulty"]],
 }
 SETTINGS = ["ttl", "min", "max", "cport", "tport", "tok", "pow", "dir", "pers"]
+SECTIONS = ["storage", "control", "node", "announce", "network", "transport"]
 # include/ephemeralnet/Config.hpp / docs/03-operations/01-configuration.md
 BUILTIN_DEFAULTS = {"ttl": 21600, "min": 30, "max": 21600, "cport": 47777, "tport": 45000, "pow": 6, "dir": "storage", "pers": False}
 PATHS = {s: SPELLINGS[s + "Paths"] for s in SETTINGS}
@@ -190,6 +191,15 @@ def gen_case(rng, shape: str, e2e: bool = False) -> Case:
     if e2e and "cport" not in flags and not any(_has(profiles[n], PATHS["cport"]) for n in names) and not (
             env is not None and (_has(env, PATHS["cport"]) or _has(env_over, PATHS["cport"]))):
         set_path(profiles[names[-1]], PATHS["cport"][0], rng.choice([60000, 60001, 60002, 60003]))
+    # empty sections: a layer that mentions a section without setting anything in it shadows nothing
+    if shape in ("plain", "empty-section", "alias-mixed") and (shape == "empty-section" or rng.random() < 0.35):
+        trees = [profiles[n] for n in names if isinstance(profiles.get(n), dict)]
+        if env is not None:
+            trees += [env, env_over]
+        for tree in trees:
+            for sect in SECTIONS:
+                if sect not in tree and rng.random() < (0.5 if shape == "empty-section" else 0.2):
+                    tree[sect] = {}
     if env is not None and env_over:
         env["overrides"] = env_over
     if env is not None and select_by == "env":
@@ -344,7 +354,7 @@ def gen_error_route(rng, kind: str, route: str, e2e: bool = False) -> Case:
     return Case(ops=[f"{op} {fmt} {profile_flag} {env_name} {flag_text(flags)} {ser(doc)}"], tag=f"error-route/{kind}/{route}" + ("/e2e" if e2e else ""))
 
 
-SHAPES = ["plain"] * 10 + ["cycle", "cycle", "missing-parent", "missing-parent", "missing-selected", "extends-type", "profile-not-map",
+SHAPES = ["plain"] * 10 + ["empty-section", "empty-section", "cycle", "cycle", "missing-parent", "missing-parent", "missing-selected", "extends-type", "profile-not-map",
                            "missing-env", "invalid", "invalid", "shadow", "alias-mixed"]
 
 
@@ -395,7 +405,8 @@ def spec() -> Spec:
         budget={"quick": 900, "thorough": 12000},
         rule="generated JSON/YAML configuration files: 6-8 of nine representative settings (default/min/max TTL, control and transport "
              "port, token, PoW difficulty, storage directory, persistence) each assigned distinct values in a random subset of layers "
-             "(flags, environment direct keys, environment overrides map, selected profile, ancestors), extends chains of depth 0-4, "
+             "(flags, environment direct keys, environment overrides map, selected profile, ancestors), empty sections ({} / a YAML key "
+             "with nothing under it) in any layer, extends chains of depth 0-4, "
              "profile selected by default / --profile p0 / an explicit --profile default / the environment, with the environment naming a "
              "decoy profile while a --profile flag is given; flags whose value equals the built-in default (also 0 and false); unrelated "
              "(also cyclic) profiles as noise; the cross product {missing, self-loop, 2-cycle, 3-cycle, missing parent at depth 1-3} x "
